@@ -37,6 +37,15 @@ def oracle(r):
             why.append("only %d of %d due jobs were executed" % (r["execs"], r["jobs"]))
     if r["test"] == "independent" and (r["own_next_execs"] < 4 or r["sibling_execs"] < 4):
         why.append("a never-returning job delayed its sibling (%d runs) or its own next fire times (%d runs)" % (r["sibling_execs"], r["own_next_execs"]))
+    if r["test"] == "ctxerr_then_barrier":
+        if not r["barrier_reached"]:
+            why.append("pool of %d: after jobs whose own error was context.DeadlineExceeded / wrapped context.Canceled, %d jobs due at once no longer ran "
+                       "in parallel (workers were lost); %d of %d executions" % (r["limit"], r["barrier"], r["execs"], r["jobs"]))
+    if r["test"] == "retrying_independent":
+        if r["sibling_max_gap_ms"] > 450:
+            why.append("unbounded mode: while a failing job was in its retry sequence a sibling ticker (every 10 ms) was not dispatched for %d ms" % r["sibling_max_gap_ms"])
+        if r["own_next_execs"] < 8:
+            why.append("unbounded mode: a job still retrying delayed its own next fire times (%d executions in 1.6 s, fire time every 100 ms)" % r["own_next_execs"])
     if not r["wait_returned"]:
         why.append("Wait did not return after Stop")
     return why
